@@ -56,10 +56,11 @@ def gen_script(rng, tier):
     fn = ['ret', rng.randrange(0, 50)] if r < 0.6 else ['raise', rng.randrange(1, 50)] if r < 0.85 else \
         ['raisebase', rng.randrange(1, 50)]
     if kind == 'cw':
-        return {'kind': 'cw', 'src': ['ok', rng.randrange(0, 50)] if rng.random() < 0.5 else ['err', 7],
+        return {'kind': 'cw', 'src': ['ok', rng.choice([0, 0, rng.randrange(0, 50)])] if rng.random() < 0.5 else ['err', 7],
                 'fn': fn, 'on_hub': rng.random() < 0.5, 'pre': rng.random() < 0.3,
                 'deliver': rng.random() < 0.9}
-    return {'kind': 'map', 'src': ['ok', rng.randrange(0, 50)] if rng.random() < 0.6 else ['err', rng.randrange(1, 50)],
+    # a successful value may be falsy (0): "applies its function only to successful values" means to all of them
+    return {'kind': 'map', 'src': ['ok', rng.choice([0, 0, rng.randrange(0, 50)])] if rng.random() < 0.6 else ['err', rng.randrange(1, 50)],
             'fn': fn, 'pre': rng.random() < 0.3, 'deliver': rng.random() < 0.9}
 
 
